@@ -162,6 +162,15 @@ func Unstub(name string)       {}
 // Thorough reports whether the thorough tier is running (GOSX_TIER=thorough).
 func Thorough() bool { return os.Getenv("GOSX_TIER") == "thorough" }
 
+// DrawPolicy installs a bound on bounded random draws: for a draw method(n)
+// the engine assumes result < f(method, n) when f returns a positive value.
+// Every bound in force is reported in the evidence. Natively a no-op.
+func DrawPolicy(f func(method string, n int) int) {}
+
+// ForkSmallTables makes the engine case-split lookups with a symbolic index
+// into constant tables of at most 4 entries instead of building an ite.
+func ForkSmallTables(on bool) {}
+
 // Symbolic reports whether the code runs under the engine.
 func Symbolic() bool { return false }
 
@@ -220,7 +229,9 @@ func render(sb *strings.Builder, v any) {
 
 // IntOfLit returns the value of a symbolic integer literal marker (engine
 // only); natively literals are ordinary text and ok is false.
-func IntOfLit(text string) (uint64, bool) { return 0, false }
+// signed reports whether the literal came from a signed Go value (so v is a
+// two's complement int64) rather than an unsigned magnitude.
+func IntOfLit(text string) (v uint64, signed, ok bool) { return 0, false, false }
 
 // BytesOfLit is the string-literal counterpart of IntOfLit.
 func BytesOfLit(text string) ([]byte, bool) { return nil, false }
@@ -292,6 +303,27 @@ func rawFor(d drawRec) []uint64 {
 		return []uint64{v}
 	case "Int63n":
 		return []uint64{v}
+	case "Float32":
+		return []uint64{v << 32} // Float32 = float32(Int31n(1<<24)) / (1<<24)
+	case "Perm":
+		// invert m[i] = m[j]; m[j] = i to obtain the Intn(i+1) draws
+		m := append([]uint64(nil), d.Val...)
+		js := make([]uint64, len(m))
+		for i := len(m) - 1; i >= 0; i-- {
+			j := 0
+			for k := range m {
+				if m[k] == uint64(i) {
+					j = k
+				}
+			}
+			js[i] = uint64(j)
+			m[j] = m[i]
+		}
+		out := make([]uint64, len(js))
+		for i, j := range js {
+			out[i] = j << 32
+		}
+		return out
 	case "int31n":
 		// Lemire: result = (uint64(u32)*n)>>32 with low part >= n%... ; search u32
 		n := d.Arg
